@@ -38,6 +38,7 @@ type Solver struct {
 	timeout  int // ms
 	log      io.Writer
 	uses     int
+	lastAssert *Term
 }
 
 // SolverKind: "z3", "z3-new", "cvc5"
@@ -189,6 +190,7 @@ func (s *Solver) Assert(t *Term) {
 	if t.IsTrue() {
 		return
 	}
+	s.lastAssert = t
 	s.send("(assert " + s.ref(t) + ")")
 }
 
@@ -199,6 +201,16 @@ func (s *Solver) Check() SatResult {
 	s.send("(check-sat)")
 	for {
 		l := s.readLine()
+		if d := time.Since(start); d > 700*time.Millisecond && os.Getenv("SYMGO_SLOWQ") != "" && (l == "sat" || l == "unsat" || l == "unknown") {
+			txt := ""
+			if s.lastAssert != nil {
+				txt = s.lastAssert.String()
+				if len(txt) > 600 {
+					txt = txt[:600] + "..."
+				}
+			}
+			fmt.Fprintf(os.Stderr, "[slow query %.1fs %s] last assert: %s\n", d.Seconds(), l, txt)
+		}
 		switch {
 		case l == "sat":
 			s.Time += time.Since(start)
